@@ -181,6 +181,8 @@ type Session struct {
 	FaultKind       string         // kind of I/O call a fault plan targets (fault check)
 	IOFault         bool           // set by fault plans when an injected fault hit
 	finalSyncFailAt int            // log length when a commit last failed only in its final sync
+	txLogStart      int            // length of the disk log when the running transaction began (vfs line)
+	txFault         bool           // an injected fault hit during the running transaction (no vfs line then)
 }
 
 // Current is the session receiving trace points (one per process at a time).
@@ -471,6 +473,7 @@ func (s *Session) Begin(o TxOpts) string {
 	s.Pages = map[uint64]*txfile.Page{}
 	s.TxRoot = s.Root
 	s.hookLog = s.hookLog[:0]
+	s.txLogStart, s.txFault = s.Disk.LogLen(), false
 	if o.Overflow {
 		s.mark("overflow-tx")
 	}
@@ -878,9 +881,51 @@ func (s *Session) Commit() string {
 	} else {
 		s.mark("commit-failed")
 	}
+	s.emitVfs(res)
 	s.endTx()
 	s.emitSnap()
 	return res
+}
+
+// emitVfs writes the file-level operations the finished transaction issued (from its Begin to the end of
+// Commit / Rollback / Close): `w<page>` per page written, `h<slot>` per header write, `s` per sync,
+// `t<pages>` per truncate. The Lean driver compares them with the vfs trace of the engine model
+// (Model/EngineTrace.lean - the traces the crash theorems of C01 / C08 / C14 are about). Not emitted when an
+// injected I/O fault hit during the transaction, or when the log is not kept.
+func (s *Session) emitVfs(res string) {
+	if s.IOFault || s.txFault || s.Disk == nil || !s.Disk.KeepLog {
+		return
+	}
+	log := s.Disk.LogCopy()
+	if s.txLogStart > len(log) {
+		return
+	}
+	ps := int64(s.Cfg.PageSize)
+	var toks []string
+	for _, op := range log[s.txLogStart:] {
+		switch op.Kind {
+		case simdisk.OpSync:
+			toks = append(toks, "s")
+		case simdisk.OpSyncFail:
+			toks = append(toks, "sf")
+		case simdisk.OpTruncate:
+			toks = append(toks, fmt.Sprintf("t%d", (op.Off+ps-1)/ps))
+		case simdisk.OpWrite:
+			if len(op.Data) == 84 && (op.Off == 0 || op.Off == ps) {
+				toks = append(toks, fmt.Sprintf("h%d", op.Off/ps))
+				continue
+			}
+			for o := int64(0); o < int64(len(op.Data)); o += ps {
+				toks = append(toks, fmt.Sprintf("w%d", (op.Off+o)/ps))
+			}
+		}
+	}
+	v := "-"
+	if len(toks) > 0 {
+		v = strings.Join(toks, ",")
+	}
+	s.emit("vfs %s => %s", v, res)
+	s.mark("vfs-trace")
 }
 
 // Rollback aborts the running transaction (how: rollback | close).
@@ -894,6 +939,7 @@ func (s *Session) Rollback(how string) string {
 	s.drainHook()
 	s.emit("%s => %s", how, res)
 	s.mark("abort-" + how)
+	s.emitVfs(res)
 	s.endTx()
 	s.emitSnap()
 	return res
